@@ -34,10 +34,14 @@ import (
 	assetstypes "github.com/ExocoreNetwork/exocore/x/assets/types"
 	delegationtypes "github.com/ExocoreNetwork/exocore/x/delegation/types"
 	operatortypes "github.com/ExocoreNetwork/exocore/x/operator/types"
+	oraclekeeper "github.com/ExocoreNetwork/exocore/x/oracle/keeper"
 	oracletypes "github.com/ExocoreNetwork/exocore/x/oracle/types"
 )
 
 func init() { register("determinism", domDeterminism) }
+
+// detTraceMemory (role=diag only): append the oracle's in-memory dump to every trace line
+var detTraceMemory bool
 
 type detStats struct {
 	txs, txOK, keeperOps, keeperOK, epochs, valUpdates, slashes, malformed, oracleOK int
@@ -259,7 +263,12 @@ func runDetSequence(seed uint64, blocks int, restartEvery int, chainID string) (
 		if len(r.End.ValidatorUpdates) > 0 {
 			st.valUpdates++
 		}
-		trace = append(trace, fmt.Sprintf("h=%d app=%s %s tx=[%s]", c.Header.Height-1, hex.EncodeToString(r.AppHash), fmtEnd(r.End), strings.Join(txLines, " ")))
+		line := fmt.Sprintf("h=%d app=%s %s tx=[%s]", c.Header.Height-1, hex.EncodeToString(r.AppHash), fmtEnd(r.End), strings.Join(txLines, " "))
+		if detTraceMemory {
+			id := func(s string) string { return s }
+			line += " mem=" + oraclekeeper.VerifDumpAgc(id) + "|" + oraclekeeper.VerifDumpCache(id)
+		}
+		trace = append(trace, line)
 		if restartEvery > 0 && (b+1)%restartEvery == 0 {
 			// what a restart does to the oracle's non-persisted state; the next BeginBlock/tx/EndBlock
 			// rebuilds it from the store
@@ -317,6 +326,23 @@ func domDeterminism(env *Env) error {
 	seed := env.Report.Seed
 	blocks := env.Int("blocks", 40)
 	role := env.Str("role", "parent")
+	if role == "diag" { // developer aid: where does an emulated restart first become visible?
+		detTraceMemory = true
+		t1, _, _ := runDetSequence(seed, blocks, 0, "")
+		t3, _, _ := runDetSequence(seed, blocks, env.Int("restart", 7), "")
+		for i := range t1 {
+			if i < len(t3) && t1[i] != t3[i] {
+				fmt.Println("first difference at block index", i)
+				if i > 0 {
+					fmt.Println("PREV:", t1[i-1])
+				}
+				fmt.Println("REF :", t1[i])
+				fmt.Println("RST :", t3[i])
+				break
+			}
+		}
+		return nil
+	}
 	if role == "child" {
 		t1, _, _ := runDetSequence(seed, blocks, 0, "")
 		t2, _, _ := runDetSequence(seed, blocks, 0, "")
@@ -405,11 +431,177 @@ func domDeterminism(env *Env) error {
 			env.Sample(ref[len(ref)/2])
 		}
 	}
-	// ---- directed: F-08a
+	// ---- directed: F-08a (repaired in the repository; kept as a regression)
 	if env.Int("f08a", 1) == 1 {
 		scenarioF08a(env, seed)
 	}
+	// ---- generated: simulation isolation of the oracle handlers
+	for i := 0; i < env.Int("simruns", 4); i++ {
+		simIsolationRun(env, seed*50+uint64(i))
+	}
 	return nil
+}
+
+// simIsolationRun: two instances execute the same seeded blocks (oracle price txs by the genesis
+// validators through DeliverTx, time steps); instance A additionally *simulates* (BaseApp.Simulate =
+// gas estimation, handlers run on the check state) a random batch of oracle txs between the blocks:
+// price messages for open rounds (first, repeated, consensus-reaching), and params updates; none of
+// them is ever delivered. Compared: every commit's app hash, and — through the verif hooks — the
+// deliver-side aggregator and the pending cache right after each batch (leaks are seen before they
+// reach the store).
+func simIsolationRun(env *Env, seed uint64) {
+	blocks := env.Int("simblocks", 24)
+	type out struct {
+		hashes     []string
+		dumps      []string
+		sims       int
+		simOK      int
+		simPriceOK int
+		delivered  int
+		halt       string
+	}
+	ident := func(s string) string { return s }
+	run := func(withSim bool) (o out) {
+		rng := NewRNG(seed ^ 0x51B)
+		simRng := NewRNG(seed ^ 0x51C)
+		cfg := DefaultCfg(seed)
+		cfg.ChainID = utils.TestnetChainID + "-1"
+		cfg.NOperators = 3
+		cfg.Powers = []int64{101, 100, 150}
+		c := NewChainFresh(cfg)
+		nonce := map[string]int32{}
+		lastBased := uint64(0)
+		basedOf := func() uint64 {
+			h := uint64(c.Header.Height)
+			b := (h-1)/10*10 + 1
+			if b != lastBased {
+				nonce = map[string]int32{}
+				lastBased = b
+			}
+			return b
+		}
+		for b := 0; b < blocks; b++ {
+			based := basedOf()
+			committed := map[string]int32{} // nonces as of the last commit = what the check state holds
+			for k, v := range nonce {
+				committed[k] = v
+			}
+			// delivered price txs (both instances): sometimes enough equal prices for consensus
+			for vi := range c.ConsPrivs {
+				if !rng.Chance(1, 3) {
+					continue
+				}
+				key := fmt.Sprint(vi)
+				if nonce[key] >= 3 {
+					continue
+				}
+				price := []string{"10", "10", "11"}[rng.Intn(3)]
+				bz, err := oraclePriceTx(c, c.ConsPrivs[vi], priceMsg(oracleCreator(c.ConsPrivs[vi]), 1, based, nonce[key]+1, price, 0, fmt.Sprint(based), c.Header.Time))
+				if err != nil {
+					continue
+				}
+				r, h := c.DeliverRaw(bz)
+				if h != "" {
+					o.halt = h
+					return
+				}
+				if r.Code == 0 {
+					nonce[key]++ // the ante handler advanced the stored nonce
+					o.delivered++
+				}
+			}
+			if withSim {
+				n := 1 + simRng.Intn(4)
+				// the ante handler's nonce bookkeeping of a simulated tx is written to the check state, which
+				// is reset from the committed state at every Commit
+				simNonce := map[int]int32{}
+				for vi := range c.ConsPrivs {
+					simNonce[vi] = committed[fmt.Sprint(vi)]
+				}
+				for k := 0; k < n; k++ {
+					var bz []byte
+					var err error
+					isPrice := simRng.Chance(3, 4)
+					if isPrice {
+						vi := simRng.Intn(len(c.ConsPrivs))
+						price := []string{"10", "11", "12"}[simRng.Intn(3)]
+						nn := simNonce[vi] + 1
+						if simRng.Chance(1, 6) {
+							nn++ // a gap: rejected by the nonce check
+						} else {
+							simNonce[vi] = nn
+						}
+						// the check state still carries the previous block's time
+						bz, err = oraclePriceTx(c, c.ConsPrivs[vi], priceMsg(oracleCreator(c.ConsPrivs[vi]), 1, based, nn, price, 0, fmt.Sprint(based), c.Header.Time.Add(-time.Minute)))
+					} else {
+						p := c.App.OracleKeeper.GetParams(c.Ctx)
+						bz, err = signedTx(c, c.Funded, 2000000, &oracletypes.MsgUpdateParams{Authority: c.Funded.Acc.String(),
+							Params: oracletypes.Params{MaxSizePrices: p.MaxSizePrices + int32(1+simRng.Intn(5))}})
+					}
+					if err != nil {
+						continue
+					}
+					h := ""
+					var simErr error
+					func() {
+						defer recoverTo(&h, "Simulate")
+						_, _, simErr = c.App.BaseApp.Simulate(bz)
+					}()
+					if h != "" {
+						o.halt = h
+						return
+					}
+					o.sims++
+					if simErr == nil {
+						o.simOK++
+						if isPrice {
+							o.simPriceOK++
+						}
+					} else if os.Getenv("DET_DEBUG") != "" {
+						fmt.Fprintln(os.Stderr, "DEBUG sim err:", tailStr(simErr.Error(), 160))
+					}
+				}
+			}
+			o.dumps = append(o.dumps, oraclekeeper.VerifDumpAgc(ident)+"|"+oraclekeeper.VerifDumpCache(ident))
+			d := time.Duration(1+rng.Intn(10)) * time.Second
+			r := c.EndAndBegin(d)
+			if r.Halt != "" {
+				o.halt = r.Halt
+				return
+			}
+			o.hashes = append(o.hashes, hex.EncodeToString(r.AppHash))
+		}
+		return
+	}
+	op := fmt.Sprintf("sim.reset seed=%d blocks=%d", seed, blocks)
+	hist := []string{op, "sim.blocks: oracle price txs delivered on both instances; instance A also simulates a batch of oracle price / params txs after each block's txs (never delivered)"}
+	a := run(true)
+	b := run(false)
+	env.Op(op, "ok")
+	env.Eval("C08.simulate")
+	env.Report.Histories++
+	env.Report.Outcomes["simulate.calls"] += a.sims
+	env.Report.Outcomes["simulate.ok"] += a.simOK
+	env.Report.Outcomes["simulate.price.ok"] += a.simPriceOK
+	env.Report.Outcomes["simulate.run.price-delivered"] += a.delivered
+	obs := fmt.Sprintf("sims=%d ok=%d price-ok=%d delivered=%d blocks=%d", a.sims, a.simOK, a.simPriceOK, a.delivered, len(a.hashes))
+	if a.halt != "" || b.halt != "" {
+		env.Violate("C08.simulate", "halt:"+sigOfHalt(a.halt+b.halt), "simulation-isolation run halted: "+a.halt+b.halt, hist)
+		env.Op("sim.compare", obs+" halt")
+		return
+	}
+	if i := firstDiffLine(a.dumps, b.dumps); i >= 0 {
+		env.Violate("C08.simulate", "simulate-changes-memory:oracle",
+			fmt.Sprintf("after the txs of block index %d the deliver-side oracle memory differs between the simulating and the non-simulating instance: A=%q B=%q", i, tailStr(a.dumps[i], 400), tailStr(b.dumps[i], 400)),
+			append(hist, fmt.Sprintf("sim.block %d", i)))
+	}
+	if i := firstDiffLine(a.hashes, b.hashes); i >= 0 {
+		env.Violate("C08.simulate", "simulate-changes-apphash:oracle",
+			fmt.Sprintf("commit #%d differs between the instance that simulated oracle txs and the one that did not: %s vs %s", i, a.hashes[i], b.hashes[i]),
+			append(hist, fmt.Sprintf("sim.block %d", i)))
+	}
+	env.DistinctKey(fmt.Sprintf("sim-%d-%d", seed, a.simOK))
+	env.Op("sim.compare", obs+fmt.Sprintf(" same-memory=%v same-hashes=%v", firstDiffLine(a.dumps, b.dumps) < 0, firstDiffLine(a.hashes, b.hashes) < 0))
 }
 
 func tailStr(s string, n int) string {
